@@ -11,7 +11,7 @@
     An observed stream is a list of [((level, plane, iy, ix), size)]. *)
 From Coq Require Import ZArith List Bool Lia Permutation.
 From OG Require Import Base.Result Base.ListSel Model.Roi Model.CogLayout
-  Proofs.CogLayoutProofs Proofs.CogTilesProofs Proofs.CogOffsetsProofs.
+  Proofs.CogLayoutProofs Proofs.CogTilesProofs Proofs.CogOffsetsProofs Proofs.CogTidxOrder.
 Import ListNotations.
 Open Scope Z_scope.
 
@@ -145,6 +145,20 @@ Theorem C05_tidx_enumerates_once :
   forall m, NoDup (tidx m) /\ forall idx, In idx (tidx m) <-> in_range m idx.
 Proof. exact tidx_enumerates_once. Qed.
 Print Assumptions C05_tidx_enumerates_once.
+
+(** ... and in flat-index order: position k of the tidx() stream is tile k of
+    TileOffsets/TileByteCounts (a list equation, not only a bijection) *)
+Theorem C05_tidx_in_flat_order :
+  forall m, wf_counts m ->
+    map (flat_tile_idx m) (tidx m) = map (@Ok Z) (CogLayout.zrange (num_tiles m)).
+Proof. exact tidx_flat_order. Qed.
+Print Assumptions C05_tidx_in_flat_order.
+
+Theorem C05_wf_counts_of_positive_tiles :
+  forall m, 0 <= m_nsamples m -> 0 <= fst (m_shape m) -> 0 <= snd (m_shape m) ->
+    0 < fst (m_tile m) -> 0 < snd (m_tile m) -> wf_counts m.
+Proof. exact wf_counts_of_pos. Qed.
+Print Assumptions C05_wf_counts_of_positive_tiles.
 
 Theorem C05_cog_tidx_enumerates_once :
   forall mm, NoDup (cog_tidx mm) /\ forall t, In t (cog_tidx mm) <-> valid_tile mm t.
